@@ -1461,7 +1461,7 @@ def _instantiate_type_evaluable(ctx) -> bool:
             rule_instantiate_type_by_evaluation(ctx, r, "S14")
         except AnalysisError:
             return False
-        return r.units.get("instantiate_type_runs", 0) >= 23
+        return r.units.get("instantiate_type_runs", 0) >= 27
     return ctx._get("instantiate_type_evaluable", mk)
 
 
@@ -1968,7 +1968,7 @@ def rule_typedef_yields_one_instantiation(ctx, rep: Report, rid="N11"):
     td_listed, td_new, td_fun, td_fwd, td_inner = td("Foo", "FooA", A), td("Foo", "FooC", C), td("twice", "twiceA", A), td("Ext", "ExtB", B), td("Foo", "InnerFoo", B)
     inner = SampleObj(__kind__="Namespace", name="inner", content=[td_inner], parent="")
     # a namespace that holds only a bare template (typedef'd from outside, in front of it), an empty one, and one holding only such
-    box_t = SampleObj(__kind__="Class", name="Box", template=SampleObj(__kind__="Template", typenames=["T"], instantiations=[]))
+    box_t = SampleObj(__kind__="Class", name="Box", template=SampleObj(__kind__="Template", typenames=["T"], instantiations=[[]]))   # (no list: one empty list per parameter)
     detail = SampleObj(__kind__="Namespace", name="detail", content=[box_t], parent="")
     reserved = SampleObj(__kind__="Namespace", name="reserved", content=[], parent="")
     hollow = SampleObj(__kind__="Namespace", name="hollow", content=[SampleObj(__kind__="Namespace", name="deeper", content=[], parent="")], parent="")
@@ -2118,12 +2118,22 @@ def rule_instantiate_type_by_evaluation(ctx, rep: Report, rid="S14", part="subst
          "std::vector<std::pair<ns::U, std::vector<ns::U>>>"),
         ("const T::Value& (T := ns::U)", lambda: ty(tn("Value", ["T"]), const="const", ref="&"), "const ns::U::Value&"),
     ]
+    # a third binding: the concrete type of T is templated and its own argument is spelled like the parameter U (ns::Holder<U>, U a
+    # class of that name): put in place of a nested T it must not be scanned for parameters again
+    HU = ("ns::Holder<U>", lambda: tn("Holder", ["ns"], [tn("U")]))
+    cases3 = [
+        ("T (T := ns::Holder<U>)", lambda: ty(tn("T")), "ns::Holder<U>"),
+        ("std::vector<T> (T := ns::Holder<U>)", lambda: ty(tn("vector", ["std"], [tn("T")])), "std::vector<ns::Holder<U>>"),
+        ("std::map<T, std::vector<T>> (T := ns::Holder<U>)", lambda: ty(tn("map", ["std"], [tn("T"), tn("vector", ["std"], [tn("T")])])),
+         "std::map<ns::Holder<U>, std::vector<ns::Holder<U>>>"),
+        ("std::pair<U, T> (T := ns::Holder<U>)", lambda: ty(tn("pair", ["std"], [tn("U"), tn("T")])), "std::pair<double, ns::Holder<U>>"),
+    ]
     diffs, impure, n = [], [], 0
     try:
-        for label, mk, want in cases + cases2:
+        for label, mk, want in cases + cases2 + cases3:
             ct = mk()
             before = spell(ct)
-            first = NU if (label, mk, want) in cases2 else P3
+            first = NU if (label, mk, want) in cases2 else (HU if (label, mk, want) in cases3 else P3)
             cpp_tn = tn("Foo", ["ns"], [first[1](), D[1]()])
             env = {"ctype": ct, "template_typenames": ["T", "U"], "instantiations": [first[1](), D[1]()], "cpp_typename": cpp_tn}
             for p_, d_ in zip(ps[len(ps) - len(fn.args.defaults):], fn.args.defaults):
